@@ -16,6 +16,15 @@ def run(ctx):
             ops_nf.case_eval_multiline(ctx, s, nest_name="my nest")
         if i % 6 == 0:
             ops_nf.case_eval_assign(ctx, s, nest_name="my nest")
+        if i % 7 == 0:
+            # a frame with rows whose nest holds NO record at all (every row empty or missing): assignments to a field of
+            # it and to a field of a NEW nest made from it
+            rng = ctx.rng
+            ty0 = rng.choice([[["a", "int64"], ["b", "double"]], [["a", "double"]]])
+            rows0 = [rng.choice([None, [[nm, []] for nm, _ in ty0]]) for _ in range(rng.randint(1, 4))]
+            s0 = Subject(ctx, content={"ty": ty0, "rows": rows0}, allow_hidden=False)
+            ops_nf.case_eval_assign(ctx, s0, target="new_nest")
+            ops_nf.case_eval_assign(ctx, s0, target=rng.choice(["new", "existing"]))
         if i % 4 == 0:
             # exactly one record in every row: the flat index IS the frame index, the assignment takes the
             # "one value per row" route and must still store what the expression computed (values, nulls, type)
